@@ -50,6 +50,11 @@ type ReqSpec struct {
 	Form     []KV     `json:"form,omitempty"`
 	Files    []KV     `json:"files,omitempty"` // K = "param|filename", V = content
 	Step     int      `json:"reader_step,omitempty"` // bytes returned per Read by the body stream / file readers
+	// URLForm varies how the URL string given to SetRequestURI is written: "" as usual; "no-path": the
+	// authority is followed directly by "?query" (only for the path "/"); "fragment": "#sec/3?x" is
+	// appended (a fragment is never sent); "requery": the query is first set to something else and read,
+	// then replaced through SetQueryString
+	URLForm string `json:"url_form,omitempty"`
 	body     []byte
 }
 
@@ -95,6 +100,13 @@ func genReq(t *rapid.T, idx int) *ReqSpec {
 	}
 	for i := 0; i < rapid.IntRange(0, 3).Draw(t, "nQuery"); i++ {
 		r.Query = append(r.Query, KV{K: rapid.SampledFrom([]string{"q", "a b", "k&", "x=", "é"}).Draw(t, "qk") + fmt.Sprint(i), V: rapid.SampledFrom([]string{"", "1", "a b", "x&y=z", "%41", "é", "+"}).Draw(t, "qv")})
+	}
+	r.URLForm = rapid.SampledFrom([]string{"", "", "", "no-path", "fragment", "no-path+fragment", "requery"}).Draw(t, "urlForm")
+	if strings.Contains(r.URLForm, "no-path") {
+		r.Path = "/"
+		if rapid.Bool().Draw(t, "slashInQuery") {
+			r.Query = append([]KV{{K: "next", V: "/home/x"}}, r.Query...)
+		}
 	}
 	for i := 0; i < rapid.IntRange(0, 5).Draw(t, "nHeaders"); i++ {
 		v, _ := gen.HeaderValue(t, false)
@@ -148,13 +160,30 @@ func (r *ReqSpec) build(cfg *Config, api int) *protocol.Request {
 		u := url.URL{Scheme: "http", Host: r.Host, Path: r.Path}
 		var q []string
 		for _, kv := range r.Query {
+			if kv.K == "next" {
+				q = append(q, "next="+kv.V) // a slash needs no escaping in a query
+				continue
+			}
 			q = append(q, url.QueryEscape(kv.K)+"="+url.QueryEscape(kv.V))
 		}
 		s := u.String()
-		if len(q) > 0 {
-			s += "?" + strings.Join(q, "&")
+		if strings.Contains(r.URLForm, "no-path") {
+			s = "http://" + r.Host
 		}
-		req.SetRequestURI(s)
+		query := strings.Join(q, "&")
+		if r.URLForm == "requery" {
+			req.SetRequestURI(s + "?stale=1&page=1")
+			_ = req.URI().QueryArgs().Peek("page")
+			req.URI().SetQueryString(query)
+		} else {
+			if len(q) > 0 {
+				s += "?" + query
+			}
+			if strings.Contains(r.URLForm, "fragment") {
+				s += "#sec/3?x"
+			}
+			req.SetRequestURI(s)
+		}
 	} else {
 		// through the URI setters
 		req.SetRequestURI("http://" + r.Host + "/")
@@ -261,15 +290,18 @@ func checkRequestBytes(r *ReqSpec, cfg *Config, b []byte) string {
 	if sortedKV(gotQ) != wantQuery {
 		return fmt.Sprintf("query decoded by net/http %q, want %q (target %q)", sortedKV(gotQ), wantQuery, pr.Target)
 	}
-	if hr.URL.Path != r.Path {
+	if hr.URL.Path != r.Path && !(cfg.Proxy && hr.URL.Path == "" && r.Path == "/") { // (an absolute-form target may have an empty path: it means "/")
 		return fmt.Sprintf("path decoded by net/http %q, want %q (target %q)", hr.URL.Path, r.Path, pr.Target)
 	}
 	if cfg.Proxy {
-		if !strings.HasPrefix(pr.Target, "http://"+r.Host+"/") {
+		if !strings.HasPrefix(pr.Target, "http://"+r.Host+"/") && !strings.HasPrefix(pr.Target, "http://"+r.Host+"?") && pr.Target != "http://"+r.Host {
 			return fmt.Sprintf("proxy form: target %q is not absolute-form for host %q", pr.Target, r.Host)
 		}
 	} else if !strings.HasPrefix(pr.Target, "/") {
 		return fmt.Sprintf("target %q is not origin-form", pr.Target)
+	}
+	if strings.Contains(pr.Target, "#") {
+		return fmt.Sprintf("the request target %q carries the URL's fragment", pr.Target)
 	}
 	if ho.URI != pr.Target {
 		return fmt.Sprintf("hertz server saw target %q, strict reader %q", ho.URI, pr.Target)
@@ -600,6 +632,9 @@ func classify(c *Case) (bool, []string) {
 	}
 	for i, ex := range c.Ex {
 		cls = append(cls, "req-"+ex.Req.BodyMode, "resp-"+ex.Resp.Framing.String())
+		if ex.Req.URLForm != "" {
+			cls = append(cls, "url-"+ex.Req.URLForm)
+		}
 		if strings.HasPrefix(ex.Req.BodyMode, "stream") || ex.Req.BodyMode == "multipart" || ex.Resp.Framing == wire.FrChunked || ex.Resp.Framing == wire.FrUntilClose || i >= 1 || ex.Req.BodyLen >= 4096 || ex.Resp.BodyLen >= 4096 {
 			nt = true
 		}
